@@ -256,6 +256,24 @@ struct Trk : public RunBase, public TrkView, public TrkController
   }
 };
 
+// the documented `if (slot)` idiom evaluated on both sides of a change of the slot, inside one function (an optimiser
+// that is wrongly told the test does not depend on memory merges the two tests): after the change the test must say
+// what the same conversion says when it is evaluated on its own, out of line
+__attribute__((noinline)) bool slot_bool_out_of_line(const sigc::slot_base* s)
+{
+  return static_cast<bool>(*s);
+}
+inline void check_if_slot_idiom(bool before, bool after, const sigc::slot_base* s)
+{
+  const bool alone = slot_bool_out_of_line(s);
+  if (after != alone)
+  {
+    std::fprintf(stderr, "harness: `if (slot)` says %d after the slot changed (it said %d before), but %d when evaluated alone\n",
+                 int(after), int(before), int(alone));
+    std::abort();
+  }
+}
+
 // functor taking a bound reference to a trackable (bind(F2, std::ref(t)))
 // (the object bound with std::ref / std::cref must arrive as that very object: not a copy, not a dead temporary)
 inline void check_bound_object(const void* got, const void* expected)
@@ -1406,17 +1424,25 @@ struct Interp
         dst->taint = src->taint;
       if (dst->isVoid)
       {
+        SlotV& d = *dst->sv; // (one local reference: the compiler must see that both tests are on the same object)
+        const bool was = d ? true : false;
         if (op == "asgS")
-          *dst->sv = *src->sv;
+          d = *src->sv;
         else
-          *dst->sv = std::move(*src->sv);
+          d = std::move(*src->sv);
+        const bool now = d ? true : false;
+        check_if_slot_idiom(was, now, &d);
       }
       else
       {
+        SlotI& d = *dst->si;
+        const bool was = d ? true : false;
         if (op == "asgS")
-          *dst->si = *src->si;
+          d = *src->si;
         else
-          *dst->si = std::move(*src->si);
+          d = std::move(*src->si);
+        const bool now = d ? true : false;
+        check_if_slot_idiom(was, now, &d);
       }
       return "ok";
     }
@@ -1441,7 +1467,13 @@ struct Interp
         SlotI tmp;
         rc = make_slot<int>(w[2], tmp);
         if (!rc)
-          *dst->si = tmp;
+        {
+          SlotI& d = *dst->si;
+          const bool was = d ? true : false;
+          d = tmp;
+          const bool now = d ? true : false;
+          check_if_slot_idiom(was, now, &d);
+        }
       }
       if (!rc && dst->taint < st)
         dst->taint = st;
@@ -1468,7 +1500,11 @@ struct Interp
       SlotObj* s = get(S, idx(w[1]));
       if (!s)
         return "dead";
-      s->base()->disconnect();
+      sigc::slot_base& d = *s->base();
+      const bool was = d ? true : false;
+      d.disconnect();
+      const bool now = d ? true : false;
+      check_if_slot_idiom(was, now, &d);
       return "ok";
     }
     if (op == "blockS" && N(2))
